@@ -374,12 +374,18 @@ def w_program(ctx, rng, i):
 
 # ------------------------------------------------------------------ video-backed lazy lists (menpo/io/input/video.py)
 class _FakeStream(object):
-    def __init__(self, data):
+    frame_bytes_read = 0          # bytes handed out by the stand-in decoder (not by the stand-in ffprobe)
+
+    def __init__(self, data, frames=False):
         import io
         self._b = io.BytesIO(data)
+        self._frames = frames
 
     def read(self, n=-1):
-        return self._b.read(n)
+        r = self._b.read(n)
+        if self._frames:
+            _FakeStream.frame_bytes_read += len(r)
+        return r
 
     def readlines(self):
         return self._b.readlines()
@@ -397,6 +403,7 @@ class FakePopen(object):
     FPS_FRACTION = (25, 1)       # avg_frame_rate as ffprobe prints it
     DURATION_FACTOR = 1.0        # container duration / (n_frames / fps): real files are rarely exactly consistent
     spawned = 0
+    decoders_started = 0
 
     def __init__(self, command, **kw):
         FakePopen.spawned += 1
@@ -410,11 +417,12 @@ class FakePopen(object):
             return
         # two different synthetic videos: the one whose file name contains "B" shows frame k as k + 100
         self.offset = 100 if any(os.path.basename(c).startswith("vidB") for c in cmd) else 0
+        FakePopen.decoders_started += 1
         start = 0
         if "-ss" in cmd:
             start = int(round(float(cmd[cmd.index("-ss") + 1]) * self.FPS_FRACTION[0] / float(self.FPS_FRACTION[1])))
         data = b"".join(bytes([(k + self.offset + c) % 256 for _ in range(self.W * self.H) for c in range(3)]) for k in range(start, self.N))
-        self.stdout = _FakeStream(data)
+        self.stdout = _FakeStream(data, frames=True)
 
     def poll(self):
         return None          # the pipe stays alive: the reader keeps streaming from it
@@ -510,15 +518,31 @@ def w_video_pair(ctx, rng, i):
         asked.append((os.path.basename(str(path)), int(frame)))
         return {"f": ms.PointCloud(np.array([[float(frame), float(frame) + 0.5]]))}
     try:
-        pa, pb = os.path.join(tmp, "vidA.mp4"), os.path.join(tmp, "vidB.mp4")
+        # (file names with a dot inside the stem - take2.cam1.mp4 - are ordinary file names)
+        stem_a, stem_b = [("vidA", "vidB"), ("vidA.cam1", "vidB.cam1"), ("vidA.v2.final", "vidB.v2.final")][rng.integers(0, 3)]
+        pa, pb = os.path.join(tmp, stem_a + ".mp4"), os.path.join(tmp, stem_b + ".mp4")
         for p_ in (pa, pb):
             open(p_, "wb").write(b"not really a video")
-        la = mio.import_video(pa, landmark_resolver=resolver, normalize=False)
-        lb = mio.import_video(pb, landmark_resolver=resolver, normalize=False)
+        default_resolver = bool(rng.random() < 0.5)
+        _FakeStream.frame_bytes_read = 0
+        d0 = FakePopen.decoders_started
+        if default_resolver:
+            # the documented default: per-frame landmark files <stem>_<k>.<ext> next to the video
+            for st_ in (stem_a, stem_b):
+                for k_ in range(FakePopen.N):
+                    mio.export_landmark_file(ms.PointCloud(np.array([[float(k_), float(k_) + 0.5]])), os.path.join(tmp, "%s_%d.pts" % (st_, k_)))
+            la = mio.import_video(pa, normalize=False)
+            lb = mio.import_video(pb, normalize=False)
+        else:
+            la = mio.import_video(pa, landmark_resolver=resolver, normalize=False)
+            lb = mio.import_video(pb, landmark_resolver=resolver, normalize=False)
         if asked:
             ctx.fail("operation_evaluated_something", cls="LazyList", mech="import_video_called_the_resolver")
+        ctx.tap("import_decodes_nothing", "calls"); ctx.tap("import_decodes_nothing", "checked")
+        if _FakeStream.frame_bytes_read or FakePopen.decoders_started != d0:
+            ctx.fail("operation_evaluated_something", cls="LazyList", mech="import_video_decoded_frames", frames=_FakeStream.frame_bytes_read // (3 * FakePopen.W * FakePopen.H))
         N = FakePopen.N
-        both = {"A": (la, 0, "vidA.mp4"), "B": (lb, 100, "vidB.mp4")}
+        both = {"A": (la, 0, stem_a + ".mp4"), "B": (lb, 100, stem_b + ".mp4")}
         if rng.random() < 0.5:
             k0 = int(rng.integers(0, N - 8))
             both["A+B"] = (la[k0:k0 + 4] + lb[k0:k0 + 4], None, None)
@@ -529,14 +553,14 @@ def w_video_pair(ctx, rng, i):
             if which == "A+B":
                 j = int(rng.integers(0, 8))
                 k = k0 + j % 4
-                off, fname = (0, "vidA.mp4") if j < 4 else (100, "vidB.mp4")
+                off, fname = (0, stem_a + ".mp4") if j < 4 else (100, stem_b + ".mp4")
             else:
                 # overlapping recent indices in the two lists
                 j = k = int(rng.integers(0, 6)) if rng.random() < 0.7 else int(rng.integers(0, N))
             if rng.random() < 0.2:
                 # the same file is imported once more, with the other normalisation (a preview next to the working copy): the
                 # earlier list goes on yielding what *it* was asked for
-                extra = mio.import_video(pa if rng.random() < 0.5 else pb, landmark_resolver=resolver, normalize=True)
+                extra = mio.import_video(pa if rng.random() < 0.5 else pb, normalize=True, **({} if default_resolver else {"landmark_resolver": resolver}))
                 both.setdefault("_keep", []).append(extra) if isinstance(both.get("_keep"), list) else both.__setitem__("_keep", [extra])
             n0 = len(asked)
             img = ll[j]
@@ -546,15 +570,16 @@ def w_video_pair(ctx, rng, i):
             got = frame_id(img)
             if got != (k + off) % 256:
                 ctx.fail("element_value_depends_on_what_was_read_before", cls="LazyList", mech="two_videos", got=got, expected=(k + off) % 256, which=which)
-            lm = img.landmarks["f"].points if img.has_landmarks and "f" in img.landmarks else None
+            gname = "PTS" if default_resolver else "f"
+            lm = img.landmarks[gname].points if img.has_landmarks and gname in img.landmarks else None
             if lm is None or float(lm[0, 0]) != float(k):
-                ctx.fail("element_value_differs_from_list_model", cls="LazyList", mech="landmarks_of_another_frame", got=None if lm is None else lm.tolist(), expected=k)
-            if asked[n0:] != [(fname, k)]:
+                ctx.fail("element_value_differs_from_list_model", cls="LazyList", mech="landmarks_of_another_frame" + (":default_resolver" if default_resolver else ""), got=None if lm is None else lm.tolist(), expected=k)
+            if not default_resolver and asked[n0:] != [(fname, k)]:
                 ctx.fail("element_read_evaluated_wrong_things", cls="LazyList", mech="resolver_asked_about_other_frames", asked=asked[n0:][:4], expected=[fname, k])
     finally:
         V.sp.Popen = real
         shutil.rmtree(tmp, ignore_errors=True)
-    ctx.count_case(("video_pair", "A+B" in both), nontrivial=True)
+    ctx.count_case(("video_pair", "A+B" in both, default_resolver, stem_a.count(".")), nontrivial=True)
 
 
 def w_imported(ctx, rng, i):
